@@ -23,7 +23,24 @@ FINDINGS on the unchanged tree (both genuine, see families):
                                  Compute c2]: total_area(m1) = 2*area instead of area)
   (and their combination when both occur in one architecture)
 
-SELFTEST (scratch copy /tmp/af-mut-c26, VERIF_REPO; quick tier): see end of docstring.
+Families carry a ``[total_area-only]`` / ``[total_leak-only]`` suffix when a pattern hits
+only one of the two quantities of a component (then it is a different bug).
+
+PROPOSED PATCH (applied to the scratch copy: check silent on all 15575 quick configurations,
+repo tests test_api_gaps/test_component_fields/test_arch_flattening/test_spec: 200 passed)
+  spec.py:255         global_fanout = 1            ->  global_fanout = leaf.get_fanout()
+  structure.py:123-125  `_parents.append(self)`    ->  only `if not isinstance(self, Compute)`
+
+SELFTEST (scratch copy /tmp/af-mut-c26 = accelforge/ + the proposed patch, so that the
+baseline is silent; VERIF_REPO, quick tier; copy deleted afterwards)
+  M0 the unchanged tree itself (= patch reverted)                       caught  own-fanout-ignored (8278),
+                                                                                own-fanout-ignored+sibling-compute-fanout-counted (2660)
+  M1 structure.py:iterate_hierarchically  Fork no longer copies _parents caught  unexplained (688), sibling-compute-fanout-counted (8)
+  M2 spec.py  total_leak_power = c.leak_power (fanout dropped for leak)  caught  11574 cfgs (own-fanout-ignored where the values coincide,
+                                                                                 unexplained elsewhere; now suffixed [total_leak-only])
+  M3 spec.py  only Container parents multiplied                          caught  unexplained (2450) + 400
+  M4 arch.py  Arch.total_area = max(...) instead of sum(...)             caught  arch-total-not-sum (14123)
+  M5 structure.py  nested Hierarchical gets a private copy of _parents   caught  unexplained (526) + 88
 """
 
 from __future__ import annotations
@@ -169,12 +186,18 @@ def check_tree(tree):
                 bad.append({"component": c, "quantity": q, "observed": obs[q][c], "expected": exp[q][c]})
                 tags.add(f"per-instance-{q}-changed")
     for c in exp["compared"]:
+        per_q = {}
         for q, tot in (("area", "total_area"), ("leak", "total_leak")):
             want = exp[q][c] * exp["n"][c]
             if not _eq(obs[tot][c], want):
                 bad.append({"component": c, "quantity": tot, "observed": obs[tot][c], "expected": want,
                             "instances": exp["n"][c]})
-                tags.add(diagnose(tree, c, exp[q][c], obs[tot][c]))
+                per_q[tot] = diagnose(tree, c, exp[q][c], obs[tot][c])
+        if len(per_q) == 2 and len(set(per_q.values())) == 1:
+            tags.add(next(iter(per_q.values())))  # area and leak wrong in the same way
+        else:
+            for tot, tag in per_q.items():  # a pattern that hits only one of the two quantities is a different bug
+                tags.update(f"{t}[{tot}-only]" for t in tag.split("+"))
     for q, tot in (("arch_area", "total_area"), ("arch_leak", "total_leak")):
         want = sum(obs[tot].values())
         if not _eq(obs[q], want):
@@ -250,14 +273,17 @@ def run(ctx):
         _FAM["kinds<=4"] = dict(tokens=XKC, nodes=4, depth=3, rot=0, fan_nodes=2, fan_values=(2, 3))
         _FAM["shapes=5"] = dict(tokens=LC, nodes=5, depth=3, rot=0, fan_nodes=1, fan_values=(2, 3),
                                 exact_nodes=True)
+        _FAM["two-dims<=3"] = dict(tokens=XKC, nodes=3, depth=2, rot=0, fan_nodes=2, fan_values=(6,))
     else:
         _FAM["kinds<=5"] = dict(tokens=XKC, nodes=5, depth=3, rot=0, fan_nodes=2, fan_values=(2, 3))
-        _FAM["kinds=6"] = dict(tokens=XKC, nodes=6, depth=3, rot=0, fan_nodes=1, fan_values=(2, 3),
+        _FAM["kinds=6"] = dict(tokens=XKC, nodes=6, depth=3, rot=0, fan_nodes=1, fan_values=(2,),
                                exact_nodes=True)
+        _FAM["two-dims<=4"] = dict(tokens=XKC, nodes=4, depth=3, rot=0, fan_nodes=2, fan_values=(6,))
         _FAM["shapes=6"] = dict(tokens=LC, nodes=6, depth=4, rot=0, fan_nodes=2, fan_values=(2, 3),
                                 exact_nodes=True)
     ctx.explore("fanouts", tree_fn, body, shard_depth=4, distinct_by_construction=False)
     ctx.bound(**{k: {kk: vv for kk, vv in f.items()} for k, f in _FAM.items()})
+    ctx.note("fanout value 6 is written as two spatial dimensions (2 x 3) on the same node")
     ctx.note("token X = component leaf (Memory, Toll alternating), K = Container, C = Compute, L = non-compute leaf "
              "with kind (Memory, Toll, Container)[index % 3]; fan_nodes = max number of leaves carrying a fanout")
 
